@@ -1,9 +1,254 @@
-(* C10: lane-level models of the AVX kernels and their equality with the scalar kernels (grows). *)
-From PV Require Import Base.MachineInt Model.Znx.
+(* C10: bit-vector lemmas on 64-bit lanes, and the AVX digit / carry helpers equal the scalar ones. *)
+From PV Require Import Base.MachineInt Model.Znx Proofs.ZnxDigit Model.C10AvxLanes.
+From Coq Require Import Znumtheory.
 Open Scope Z_scope.
 
-(* AVX get_digit: ((x land mask) lxor sign) - sign with mask = 2^b - 1, sign = 2^(b-1), on the b low bits *)
-Definition get_digit_masked (b x : Z) : Z := Z.lxor (Z.land x (2 ^ b - 1)) (2 ^ (b - 1)) - 2 ^ (b - 1).
+(* ---------- generic facts on powers of two and mod ---------- *)
+Lemma pow2_le (a b : Z) : 0 <= a <= b -> 2 ^ a <= 2 ^ b.
+Proof. intros H; apply Z.pow_le_mono_r; lia. Qed.
+
+Lemma pow2_lt (a b : Z) : 0 <= a < b -> 2 ^ a < 2 ^ b.
+Proof. intros H; apply Z.pow_lt_mono_r; lia. Qed.
+
+Lemma pow2_sum (a b : Z) : 0 <= a -> 0 <= b -> 2 ^ (a + b) = 2 ^ a * 2 ^ b.
+Proof. intros; apply Z.pow_add_r; lia. Qed.
+
+Lemma pow2_64_split (k : Z) : 0 <= k <= 64 -> 2 ^ 64 = 2 ^ (64 - k) * 2 ^ k.
+Proof. intros H; rewrite <- pow2_sum by lia. f_equal; lia. Qed.
+
+Lemma mod_mod_pow2 (x n b : Z) : 0 <= b <= n -> (x mod 2 ^ n) mod 2 ^ b = x mod 2 ^ b.
+Proof.
+  intros H. symmetry. apply Zmod_div_mod.
+  - apply pow2_pos; lia.
+  - apply pow2_pos; lia.
+  - exists (2 ^ (n - b)). rewrite <- pow2_sum by lia. f_equal; lia.
+Qed.
 
 Lemma land_mask_mod (b x : Z) : 0 <= b -> Z.land x (2 ^ b - 1) = x mod 2 ^ b.
 Proof. intros Hb. rewrite <- Z.land_ones by lia. f_equal. rewrite Z.ones_equiv. lia. Qed.
+
+(* ---------- unsigned / signed views ---------- *)
+Lemma to_u_small (u : Z) : 0 <= u < 2 ^ 64 -> to_u u = u.
+Proof. intros H; unfold to_u, wrapu; apply Z.mod_small; lia. Qed.
+
+Lemma to_u_range (x : Z) : 0 <= to_u x < 2 ^ 64.
+Proof. unfold to_u, wrapu; apply Z.mod_pos_bound; lia. Qed.
+
+Lemma to_u_neg (x : Z) : - 2 ^ 64 <= x < 0 -> to_u x = x + 2 ^ 64.
+Proof.
+  intros H; unfold to_u, wrapu. symmetry; apply Z.mod_unique with (q := -1); lia.
+Qed.
+
+Lemma of_u_small (u : Z) : - 2 ^ 63 <= u < 2 ^ 63 -> of_u u = u.
+Proof. intros H; unfold of_u; apply wrap_id; [lia|]. unfold in_range; simpl Z.sub; lia. Qed.
+
+Lemma of_u_to_u (x : Z) : of_u (to_u x) = wrap 64 x.
+Proof.
+  unfold of_u, to_u, wrapu. apply wrap_eq_mod; [lia|]. apply Z.mod_mod; lia.
+Qed.
+
+Lemma of_u_add_2_64 (q : Z) : of_u (q + 2 ^ 64) = wrap 64 q.
+Proof.
+  unfold of_u. apply wrap_eq_mod; [lia|].
+  replace (q + 2 ^ 64) with (q + 1 * 2 ^ 64) by lia. apply Z.mod_add; lia.
+Qed.
+
+Lemma in_range_64 (x : Z) : - 2 ^ 63 <= x < 2 ^ 63 -> in_range 64 x.
+Proof. unfold in_range; simpl Z.sub; tauto. Qed.
+Lemma in_range_64_elim (x : Z) : in_range 64 x -> - 2 ^ 63 <= x < 2 ^ 63.
+Proof. unfold in_range; simpl Z.sub; tauto. Qed.
+
+(* ---------- bitwise facts ---------- *)
+Lemma testbit_small_high (a m n : Z) : 0 <= a < 2 ^ m -> m <= n -> Z.testbit a n = false.
+Proof.
+  intros Ha Hn. destruct (Z.eq_dec a 0) as [->|Hne]; [apply Z.bits_0|].
+  apply Z.bits_above_log2; [lia|].
+  assert (Z.log2 a < m); [|lia].
+  apply Z.log2_lt_pow2; lia.
+Qed.
+
+Lemma land_low_high (a h m : Z) : 0 <= m -> 0 <= a < 2 ^ m -> Z.land a (h * 2 ^ m) = 0.
+Proof.
+  intros Hm Ha. apply Z.bits_inj'. intros n Hn.
+  rewrite Z.land_spec, Z.bits_0.
+  destruct (Z_lt_le_dec n m) as [Hlt|Hge].
+  - rewrite Z.mul_pow2_bits_low by lia. apply andb_false_r.
+  - rewrite (testbit_small_high a m n) by lia. reflexivity.
+Qed.
+
+Lemma lor_disjoint_add (a b : Z) : Z.land a b = 0 -> Z.lor a b = a + b.
+Proof. intros H. rewrite <- Z.lxor_lor by exact H. symmetry; apply Z.add_nocarry_lxor; exact H. Qed.
+
+Lemma lxor_disjoint_add (a b : Z) : Z.land a b = 0 -> Z.lxor a b = a + b.
+Proof. intros H. symmetry; apply Z.add_nocarry_lxor; exact H. Qed.
+
+(* the xor / sub sign-extension trick: flipping bit b-1 of a b-bit value *)
+Lemma lxor_sign (b v : Z) : 1 <= b -> 0 <= v < 2 ^ b ->
+  Z.lxor v (2 ^ (b - 1)) = if v <? 2 ^ (b - 1) then v + 2 ^ (b - 1) else v - 2 ^ (b - 1).
+Proof.
+  intros Hb Hv. pose proof (pow2_split b Hb) as Hs. set (s := 2 ^ (b - 1)) in *.
+  assert (Hlow : forall u, 0 <= u < s -> Z.lxor u s = u + s).
+  { intros u Hu. apply lxor_disjoint_add.
+    replace s with (1 * 2 ^ (b - 1)) by (unfold s; lia). apply land_low_high; [lia|]. exact Hu. }
+  destruct (Z.ltb_spec v s) as [Hlt|Hge].
+  - apply Hlow; lia.
+  - replace v with ((v - s) + s) at 1 by lia. rewrite <- (Hlow (v - s)) by lia.
+    rewrite Z.lxor_assoc, Z.lxor_nilpotent, Z.lxor_0_r. reflexivity.
+Qed.
+
+(* ---------- intrinsic-level rewriting lemmas ---------- *)
+Lemma mm_and_mask (b x : Z) : 0 <= b <= 63 -> mm_and x (2 ^ b - 1) = x mod 2 ^ b.
+Proof.
+  intros Hb. unfold mm_and.
+  pose proof (pow2_le b 63 ltac:(lia)) as Hle. pose proof (pow2_pos b ltac:(lia)) as Hp.
+  rewrite (to_u_small (2 ^ b - 1)) by lia.
+  rewrite land_mask_mod by lia. unfold to_u, wrapu. rewrite mod_mod_pow2 by lia.
+  pose proof (Z.mod_pos_bound x (2 ^ b) Hp). apply of_u_small; lia.
+Qed.
+
+Lemma mm_and_neg_mask (y t : Z) : in_range 64 t ->
+  mm_and (mm_cmpgt mm_setzero y) t = if y <? 0 then t else 0.
+Proof.
+  intros Ht. unfold mm_cmpgt, mm_setzero, mm_and.
+  destruct (y <? 0).
+  - rewrite (to_u_neg (-1)) by lia.
+    replace (-1 + 2 ^ 64) with (2 ^ 64 - 1) by lia.
+    rewrite Z.land_comm, land_mask_mod by lia.
+    pose proof (to_u_range t). rewrite Z.mod_small by lia.
+    rewrite of_u_to_u. apply wrap_id; [lia|exact Ht].
+  - rewrite (to_u_small 0) by lia. rewrite Z.land_0_l. reflexivity.
+Qed.
+
+Lemma mm_shl_eq (d c : Z) : 0 <= c -> of_u (Z.shiftl (to_u d) c) = shl 64 d c.
+Proof.
+  intros Hc. unfold of_u, shl. rewrite Z.shiftl_mul_pow2 by lia.
+  apply wrap_eq_mod; [lia|]. unfold to_u, wrapu. apply Zmult_mod_idemp_l.
+Qed.
+
+Lemma mm_sllv_shl (d c : Z) : 0 <= c < 64 -> mm_sllv d c = shl 64 d c.
+Proof.
+  intros Hc. unfold mm_sllv. rewrite (to_u_small c) by lia.
+  destruct (Z.ltb_spec c 64); [|lia]. apply mm_shl_eq; lia.
+Qed.
+
+Lemma mm_sll_shl (d c : Z) : 0 <= c < 64 -> mm_sll d (mm_cvtsi32_si128 c) = shl 64 d c.
+Proof.
+  intros Hc. unfold mm_sll, mm_cvtsi32_si128, wrapu. rewrite Z.mod_small by lia.
+  destruct (Z.ltb_spec c 64); [|lia]. apply mm_shl_eq; lia.
+Qed.
+
+(* logical shift right + sign fill = arithmetic shift right (floor division) *)
+Lemma lsr_fill_asr (k y : Z) : 1 <= k <= 63 -> in_range 64 y ->
+  mm_or (of_u (Z.shiftr (to_u y) k)) (mm_and (mm_cmpgt mm_setzero y) (- 2 ^ (64 - k))) = y / 2 ^ k.
+Proof.
+  intros Hk Hy. apply in_range_64_elim in Hy.
+  pose proof (pow2_64_split k ltac:(lia)) as H64.
+  pose proof (pow2_pos k ltac:(lia)) as Hpk.
+  pose proof (pow2_pos (64 - k) ltac:(lia)) as Hpm.
+  pose proof (pow2_le (64 - k) 63 ltac:(lia)) as Hm63.
+  assert (H63 : 2 ^ 63 = 2 ^ (63 - k) * 2 ^ k) by (rewrite <- pow2_sum by lia; f_equal; lia).
+  assert (Hm1 : 2 ^ (64 - k) = 2 * 2 ^ (63 - k)).
+  { replace (64 - k) with (1 + (63 - k)) by lia. rewrite pow2_sum by lia. reflexivity. }
+  rewrite mm_and_neg_mask by (apply in_range_64; lia).
+  rewrite Z.shiftr_div_pow2 by lia.
+  set (q := y / 2 ^ k).
+  assert (Hq : - 2 ^ (63 - k) <= q < 2 ^ (63 - k)).
+  { unfold q. split.
+    - apply Z.div_le_lower_bound; lia.
+    - apply Z.div_lt_upper_bound; lia. }
+  destruct (Z.ltb_spec y 0) as [Hneg|Hpos].
+  - rewrite (to_u_neg y) by lia.
+    replace (y + 2 ^ 64) with (y + 2 ^ (64 - k) * 2 ^ k) by lia.
+    rewrite Z.div_add by lia. fold q.
+    assert (Hq0 : q < 0) by (unfold q; apply Z.div_lt_upper_bound; lia).
+    unfold mm_or. rewrite (of_u_small (q + 2 ^ (64 - k))) by lia.
+    rewrite (to_u_small (q + 2 ^ (64 - k))) by lia.
+    rewrite (to_u_neg (- 2 ^ (64 - k))) by lia.
+    replace (- 2 ^ (64 - k) + 2 ^ 64) with ((2 ^ k - 1) * 2 ^ (64 - k)) by lia.
+    rewrite lor_disjoint_add by (apply land_low_high; lia).
+    replace (q + 2 ^ (64 - k) + (2 ^ k - 1) * 2 ^ (64 - k)) with (q + 2 ^ 64) by lia.
+    rewrite of_u_add_2_64. apply wrap_id; [lia|]. apply in_range_64; lia.
+  - rewrite (to_u_small y) by lia. fold q.
+    assert (Hq0 : 0 <= q) by (unfold q; apply Z.div_pos; lia).
+    unfold mm_or. rewrite (of_u_small q) by lia. rewrite (to_u_small q) by lia.
+    rewrite (to_u_small 0) by lia. rewrite Z.lor_0_r. apply of_u_small; lia.
+Qed.
+
+(* ---------- constants ---------- *)
+Lemma mask_k_eq (b : Z) : 1 <= b <= 63 -> mask_k b = 2 ^ b - 1.
+Proof.
+  intros Hb. unfold mask_k, as_i64, u64_shl, wrapu.
+  pose proof (pow2_le b 63 ltac:(lia)). pose proof (pow2_pos b ltac:(lia)).
+  rewrite Z.mul_1_l. rewrite (Z.mod_small (2 ^ b)) by lia. rewrite Z.mod_small by lia.
+  apply wrap_id; [lia|]. apply in_range_64; lia.
+Qed.
+
+Lemma sign_k_eq (b : Z) : 1 <= b <= 63 -> sign_k b = 2 ^ (b - 1).
+Proof.
+  intros Hb. unfold sign_k, as_i64, u64_shl, wrapu.
+  pose proof (pow2_lt (b - 1) 63 ltac:(lia)). pose proof (pow2_pos (b - 1) ltac:(lia)).
+  rewrite Z.mul_1_l. rewrite Z.mod_small by lia.
+  apply wrap_id; [lia|]. apply in_range_64; lia.
+Qed.
+
+Lemma wrap_neg_pow2 (m : Z) : 0 <= m <= 63 -> wrap 64 (- 1 * 2 ^ m) = - 2 ^ m.
+Proof.
+  intros Hm. pose proof (pow2_le m 63 ltac:(lia)). pose proof (pow2_pos m ltac:(lia)).
+  apply wrap_id; [lia|]. apply in_range_64; lia.
+Qed.
+
+Lemma topmask_eq (b : Z) : 1 <= b <= 63 -> topmask b = - 2 ^ (64 - b).
+Proof.
+  intros Hb. unfold topmask, as_i64, u64_shl, wrapu.
+  rewrite <- (wrap_neg_pow2 (64 - b)) by lia.
+  apply wrap_eq_mod; [lia|]. rewrite Z.mod_mod by lia.
+  replace ((2 ^ 64 - 1) * 2 ^ (64 - b)) with (-1 * 2 ^ (64 - b) + 2 ^ (64 - b) * 2 ^ 64) by ring.
+  apply Z.mod_add; lia.
+Qed.
+
+(* ---------- digit and carry ---------- *)
+Theorem avx_digit_raw (b x : Z) : 1 <= b <= 63 ->
+  get_digit_avx x (2 ^ b - 1) (2 ^ (b - 1)) = get_digit 64 b x.
+Proof.
+  intros Hb. rewrite digit_spec by lia. unfold get_digit_avx.
+  rewrite mm_and_mask by lia.
+  pose proof (pow2_pos b ltac:(lia)) as Hp. pose proof (pow2_pos (b - 1) ltac:(lia)) as Hps.
+  pose proof (pow2_split b ltac:(lia)) as Hs. pose proof (pow2_le b 63 ltac:(lia)) as H63.
+  pose proof (Z.mod_pos_bound x (2 ^ b) Hp) as Hv.
+  unfold wrap. rewrite <- (Zplus_mod_idemp_l x).
+  set (v := x mod 2 ^ b) in *. set (s := 2 ^ (b - 1)) in *.
+  unfold mm_xor. rewrite (to_u_small v), (to_u_small s) by lia.
+  unfold s at 1. rewrite lxor_sign by (fold v; lia). fold s.
+  destruct (Z.ltb_spec v s) as [Hlt|Hge].
+  - rewrite of_u_small by lia. unfold mm_sub.
+    rewrite wrap_id by (try apply in_range_64; lia).
+    rewrite Z.mod_small by lia. lia.
+  - rewrite of_u_small by lia. unfold mm_sub.
+    rewrite wrap_id by (try apply in_range_64; lia).
+    assert (Hm : (v + s) mod 2 ^ b = v + s - 2 ^ b).
+    { symmetry; apply Z.mod_unique with (q := 1); lia. }
+    rewrite Hm. lia.
+Qed.
+
+Theorem avx_digit_eq_ref (b x : Z) : 1 <= b <= 63 -> digit_avx b x = get_digit 64 b x.
+Proof.
+  intros Hb. unfold digit_avx, normalize_consts_avx, mm_set1.
+  rewrite mask_k_eq, sign_k_eq by lia. apply avx_digit_raw; lia.
+Qed.
+
+Theorem avx_carry_raw (b x d : Z) : 1 <= b <= 63 ->
+  get_carry_avx x d b (- 2 ^ (64 - b)) = get_carry 64 b x d.
+Proof.
+  intros Hb. unfold get_carry_avx, get_carry, asr, wsub, mm_sub.
+  set (y := wrap 64 (x - d)).
+  assert (Hy : in_range 64 y) by (apply wrap_range; lia).
+  unfold mm_srlv. rewrite (to_u_small b) by lia.
+  destruct (Z.ltb_spec b 64); [|lia].
+  apply lsr_fill_asr; [lia|exact Hy].
+Qed.
+
+Theorem avx_carry_eq_ref (b x d : Z) : 1 <= b <= 63 -> carry_avx b x d = get_carry 64 b x d.
+Proof.
+  intros Hb. unfold carry_avx, normalize_consts_avx, mm_set1.
+  rewrite topmask_eq by lia. apply avx_carry_raw; lia.
+Qed.
